@@ -399,6 +399,14 @@ func main() {
 			emit(&event{Ev: "note", Stage: stage, Phase: phase, Job: job, Note: "write failed: " + err.Error()})
 		}
 		wr = append(wr, written{Path: p, Size: int64(len(content)), Tok: tok, Kind: "out"})
+		if spec.ExtraFiles && r.Pct(30) {
+			// undeclared sibling whose name extends the output's path
+			sib := p + []string{".idx", "~old", "2"}[r.Intn(3)]
+			c2 := strings.Repeat("s", 3+r.Intn(300))
+			if os.WriteFile(sib, []byte(c2), 0644) == nil {
+				wr = append(wr, written{Path: sib, Size: int64(len(c2)), Kind: "extra"})
+			}
+		}
 		return p
 	}
 	gen := func(ps []pgen.ParamJSON, r *pgen.HashRng, prefix string, into map[string]interface{}) {
